@@ -450,6 +450,8 @@ class Executor:
         self.type_calls = []  # (path tuple, abstract name, coordinate)
         self.full = full_evaluation
         self.flags = set()  # coverage classes observed while executing
+        self.field_nodes = {}  # path tuple -> ids of the field nodes collected for that response key
+        self.results = {}  # path tuple -> (type string, raw resolver result) for fault-site discovery
 
     # -- operation selection
     def get_operation(self, name):
@@ -564,12 +566,15 @@ class Executor:
     def execute_field(self, obj, parent, name, fdef, nodes, path):
         t = ty(fdef["type"])
         try:
+            self.field_nodes[tuple(path)] = [n.get("id") for n in nodes]
             try:
                 args = coerce_argument_values(self.schema, fdef.get("args"), nodes[0].get("args"), self.vars)
             except RefInputError as e:
                 raise RefFieldError(path, "argument", str(e))
+            self.field_nodes[tuple(path)] = [n.get("id") for n in nodes]
             self.calls.append((tuple(path), "%s.%s" % (obj, name), self.provider.nid(parent), args))
             res = self.provider.resolve(parent, obj, name, args, tuple(path))
+            self.results[tuple(path)] = (fdef["type"], res, "%s.%s" % (obj, name))
             if isinstance(res, Fault) and res.kind in ("raise", "raise_tartiflette", "return_exception"):
                 raise RefFieldError(path, res.kind, res.payload)
             return self.complete(t, nodes, res, path, "%s.%s" % (obj, name))
